@@ -767,8 +767,12 @@ class NN:
             for trip, kind, extra_guards, extra_loops in cands:
                 base = [(g, pol) for g, pol in e.ctx.guards if not (pol and strip_all(g) in asserted)]
                 claims = [(g, pol) for g, pol in e.ctx.guards if pol and strip_all(g) in asserted]
-                gm = lambda t: self._get_as_subscript(q, self._inline_pure(t))
+                implied = []
+                gm = lambda t: self._through_comprehensions(self._get_as_subscript(q, self._inline_pure(t)), implied)
                 for d_term, guards in self._distance_variants(trip[2], base + extra_guards):
+                    del implied[:]
+                    terms3 = (gm(trip[0]), gm(trip[1]), gm(d_term))
+                    guards = [(gm(g), pol) for g, pol in guards] + [(c_, True) for c_ in implied]
                     g2 = self.fold_guards([(gm(g), pol) for g, pol in guards], m, q)
                     if g2 is None:
                         continue
@@ -796,6 +800,28 @@ class NN:
                 loops = [(None, fold(elem[3], m)) for elem, _ in v[3]]
                 out.append(Site(q, s.func.node, fold(trip[0], m), fold(trip[1], m), fold(trip[2], m), g2, loops, "comp", None))
         return out
+
+    def _through_comprehensions(self, t, implied):
+        """for a, b in [(f(y), g(y)) for y in ys if c(y)]:  the loop variables are f(y), g(y) of a member y of ys with c(y);
+        the filter conditions are appended to ``implied``."""
+        from .rules import rewrite as _rw
+
+        def rw(x):
+            if head(x) == "item" and head(strip(x[1])) == "iter" and isinstance(x[2], int):
+                it = strip(x[1])
+                c = strip(it[2])
+                while is_call(c, "builtins.list") and len(c[2]) == 1:
+                    c = strip(c[2][0])
+                if head(c) == "comp" and c[1] in ("list", "gen") and len(c[3]) == 1 and head(strip(c[2])) == "tuple" and x[2] < len(strip(c[2])[1]):
+                    ce = c[3][0][0]
+                    member = ("iter", it[1], ce[3])
+                    for cond in c[3][0][1]:
+                        cc = subst(cond, {ce: member})
+                        if cc not in implied:
+                            implied.append(cc)
+                    return subst(strip(c[2])[1][x[2]], {ce: member})
+            return x
+        return _rw(strip_all(t), rw)
 
     def _inline_pure(self, t):
         """Option-resolution helpers introduced after the rules were validated (pure functions returning tuples / values) are read through."""
